@@ -2,7 +2,7 @@
 from __future__ import annotations
 
 B8 = (0, 1, 2, 0x7F, 0x80, 0xFE, 0xFF)
-B16 = (0, 1, 2, 0xFF, 0x100, 0x7FFF, 0x8000, 0x8100, 0xFFFE, 0xFFFF)
+B16 = (0, 1, 2, 0xFF, 0x100, 0x7FFF, 0x8000, 0x8100, 0xFFFE, 0xFFFF, 0xDEAD, 0xBEEF)
 B24 = (0, 1, 2, 3, 0xFFFF, 0x10000, 0x7FFFFF, 0x800000, 0xFFFFFE, 0xFFFFFF)
 B32 = (0, 1, 2, 0xFFFF, 0x10000, 0x7FFFFFFF, 0x80000000, 0xFFFFFFFE, 0xFFFFFFFF)
 PAYLEN = (0, 1, 2, 7, 8, 9, 15, 16, 17, 255, 256, 257, 4095, 4096, 65527, 65528, 65535, 65536)
